@@ -165,7 +165,7 @@ func c07Junk(r *rand.Rand) string {
 // whether some q is followed by an extension parameter.
 func c07Header(r *rand.Rand) (lines []Bs, intended []c07Range, extAfterQ bool) {
 	nlines := 1
-	if r.Intn(6) == 0 {
+	if r.Intn(4) == 0 {
 		nlines = 2
 	}
 	for l := 0; l < nlines; l++ {
@@ -194,7 +194,17 @@ func c07Header(r *rand.Rand) (lines []Bs, intended []c07Range, extAfterQ bool) {
 			parts = append(parts, sb.String())
 		}
 		sep := c07ws(r) + "," + c07ws(r)
-		lines = append(lines, Bs(strings.Join(parts, sep)))
+		line := strings.Join(parts, sep)
+		switch r.Intn(8) {
+		case 0:
+			line += "," // trailing comma: the line simply ends there
+		case 1:
+			line += " , "
+		}
+		lines = append(lines, Bs(line))
+		if nlines > 1 && l == 0 && r.Intn(3) == 0 {
+			lines = append(lines, Bs([]string{"", " ", ","}[r.Intn(3)])) // an empty line between two header lines
+		}
 	}
 	return
 }
